@@ -454,3 +454,84 @@ func init() {
 		}
 	})
 }
+
+func init() {
+	txt := "the messages of a version 1 object header start where its reader looks for them: the cursor with which writeToV1 enters its message loop (a constant: the 16-byte prefix) equals the constant parseV1Header adds to the header address for the first message (a dropped 4-byte padding puts the messages at byte 12: other readers find message type 0 and garbage addresses in the root group's header)"
+	rule := func(id string) func(c *Ctx, r *Result) {
+		return func(c *Ctx, r *Result) {
+			w, rd := c.FnOpt("core.ObjectHeaderWriter.writeToV1"), c.FnOpt("core.parseV1Header")
+			if w == nil || rd == nil {
+				r.Shortfall(c, id, id+": writeToV1 or parseV1Header not found")
+				return
+			}
+			// writer: the cursor phi of the loop over the messages
+			fb := c.FB(w)
+			wInit, wPos, okW := int64(0), c.Pos(w.Pos()), false
+			for _, h := range w.Blocks {
+				isHeader := false
+				for _, p := range h.Preds {
+					if h.Dominates(p) {
+						isHeader = true
+					}
+				}
+				if !isHeader {
+					continue
+				}
+				loop := naturalLoop(h)
+				for _, in := range h.Instrs {
+					phi, isPhi := in.(*ssa.Phi)
+					if !isPhi || !isIntType(phi.Type()) {
+						continue
+					}
+					usedAsLow := false
+					for b := range loop {
+						for _, x := range b.Instrs {
+							if sl, isSl := x.(*ssa.Slice); isSl && sl.Low != nil && dependsOnValue(sl.Low, phi, 0) {
+								usedAsLow = true
+							}
+						}
+					}
+					if !usedAsLow {
+						continue
+					}
+					for i, p := range h.Preds {
+						if !h.Dominates(p) {
+							if l := fb.lin(phi.Edges[i]); l.isConst() {
+								wInit, okW = l.C, true
+								if ii, isI := phi.Edges[i].(ssa.Instruction); isI {
+									wPos = c.InstrPos(ii)
+								}
+							}
+						}
+					}
+				}
+			}
+			// reader: the constant added to the header address for the start of the messages
+			rInit, okR := int64(0), false
+			for _, site := range callsIn(rd) {
+				g := site.Common().StaticCallee()
+				if g == nil || g.Name() != "parseV1MessagesInBlock" {
+					continue
+				}
+				for i, p := range g.Params {
+					if p.Name() == "start" && i < len(site.Common().Args) {
+						if bo, isBO := stripConv(site.Common().Args[i]).(*ssa.BinOp); isBO && bo.Op == token.ADD {
+							if k, isK := constInt(bo.Y); isK {
+								rInit, okR = k, true
+							}
+						}
+					}
+				}
+			}
+			if !okW || !okR {
+				r.Undec(id, "core.ObjectHeaderWriter.writeToV1~core.parseV1Header#messages-start", wPos, "cursor of the message loop or the reader's start constant not recognised")
+				return
+			}
+			r.Check(wInit == rInit, id, "core.ObjectHeaderWriter.writeToV1~core.parseV1Header#messages-start", wPos, fmt.Sprintf("the writer's first message is at byte %d of the header, the reader starts at byte %d", wInit, rInit))
+		}
+	}
+	registry["C05"].Meta.Rules["C05.14"] = txt
+	registry["C05"].Rules = append(registry["C05"].Rules, rule("C05.14"))
+	registry["C11"].Meta.Rules["C11.14"] = txt + " (shared with C05.14)"
+	registry["C11"].Rules = append(registry["C11"].Rules, rule("C11.14"))
+}
